@@ -209,6 +209,71 @@ fn structured(out: &mut Vec<(Vec<u8>, u32, u32, String)>) {
             }
         }
     }
+    // frame headers + TOCs of C14's alphabet INCLUDING the combinations the format forbids: every 1-deviation header
+    // and the full product frame type x flags x lf_level x encoding x image context (the fields that select which
+    // tables and slots the frame touches), each followed by zero bytes and by patterned bytes
+    {
+        let (mut ftapes, _) = collect_tapes(1, 0, |t| {
+            let _ = crate::c14::frame_case_ex(t, true);
+        });
+        let len = ftapes[0].len();
+        for ctx in [0u32, 1, 3, 5] {
+            for ft in 0..4u32 {
+                for enc in 0..2u32 {
+                    for flags in 0..6u32 {
+                        for lf in 0..4u32 {
+                            let mut t = vec![0u32; len];
+                            t[0] = ctx;
+                            t[2] = ft;
+                            t[3] = enc;
+                            t[4] = flags;
+                            t[14] = lf;
+                            ftapes.push(t);
+                        }
+                    }
+                }
+            }
+        }
+        ftapes.sort();
+        ftapes.dedup();
+        for (i, tp) in ftapes.iter().enumerate() {
+            let mut t = Tape::from_answers(tp);
+            if let Some(c) = crate::c14::frame_case_ex(&mut t, true) {
+                let total: usize = c.toc_sizes.iter().map(|&s| s as usize).sum::<usize>().min(600);
+                let zeros = vec![0u8; total + 8];
+                let pattern: Vec<u8> = (0..total + 8).map(|k| (k * 37 + 11) as u8).collect();
+                out.push((crate::c14::frame_case_stream(&c, &zeros), (i % 6) as u32, 0, format!("structured-frame{i}-zeros")));
+                out.push((crate::c14::frame_case_stream(&c, &pattern), ((i + 3) % 6) as u32, 0, format!("structured-frame{i}-pattern")));
+            }
+        }
+    }
+    // VarDCT frames whose first varblock names every transform type value, valid or not (0..=28, 255, negative, large),
+    // on a one-block and on a 4x3-block frame (most types do not fit and must be rejected, none may be trusted)
+    for size in [(8usize, 8usize), (32, 24)] {
+        for v in (1..=28).chain([63, 255, 256, -1, 1 << 20]) {
+            let mut t = Tape::default();
+            let mut c = crate::c17::cfg_from(&mut t);
+            c.size = size;
+            c.pattern = 0;
+            let spec = crate::c17::spec_of(&c, 3);
+            let b = spec.write_codestream_with(&jxlw::jpeg::StreamOpts { hostile_dct_select: Some(v), ..Default::default() });
+            out.push((b, (v.unsigned_abs() % 6) as u32, 0, format!("structured-dctselect{v}-{}x{}", size.0, size.1)));
+        }
+    }
+    // container layouts of C10's box alphabet (every single box and every ordered pair, grammatical or not) through the
+    // whole decoder: box-size arithmetic is checked here with overflow checks on
+    {
+        let all: Vec<u8> = (0..(crate::c10::N_REGULAR + crate::c10::N_LAST) as u8).chain(31..=33).collect();
+        let mut k = 0u32;
+        for &a in &all {
+            out.push((crate::c10::build(&[0, a]), k % 6, (k % 2) as u32, format!("structured-boxes-{a}")));
+            k += 1;
+            for &b in &all {
+                out.push((crate::c10::build(&[a, b]), k % 6, (k % 3) as u32, format!("structured-boxes-{a}-{b}")));
+                k += 1;
+            }
+        }
+    }
     // colour encodings that describe no real colour space, hostile gamma, with every metadata / colour call
     let bad: Vec<ColourEncoding> = vec![
         ColourEncoding { all_default: false, colour_space: CS_UNKNOWN, ..ColourEncoding::srgb() },
